@@ -5,7 +5,7 @@
    that means for the Cartesian value.  cal_product_types / default_cal_products are regenerated from the source. *)
 From Coq Require Import ZArith QArith Qround Qabs List Bool String Sorting.Sorted.
 From KV Require Import Base.Sx Base.Str Gen.Generated Model.Interp Model.CalInterp Model.CalSelect Proofs.InterpP
-  Proofs.CalInterpP Proofs.CalSelectP.
+  Proofs.CalInterpP Proofs.CalStitchP Proofs.CalSelectP.
 Import ListNotations.
 Open Scope Q_scope.
 
@@ -133,16 +133,26 @@ Theorem C14_flux_override :
 Proof. split; [exact merge_flux_override | reflexivity]. Qed.
 Print Assumptions C14_flux_override.
 
-(* MULTI-PART PRODUCTS.  Output timestamps strictly increase and each comes from some part; each output value is the
-   concatenation, in part order, of the parts' pieces at that timestamp with absent pieces INVALID.
-   FULL statement (stitch_sorted_union) additionally: every timestamp of every part appears in the output — not proved
-   (tied by the correspondence only), hence _partial. *)
-Theorem C14_stitch_sorted_union_partial : forall ps out,
+(* MULTI-PART PRODUCTS (full strength; was _partial until completeness was proved in Proofs/CalStitchP.v).
+   The stitched product is the timestamp-sorted union of the parts: output timestamps strictly increase, each comes from
+   a part, EVERY timestamp of EVERY part appears, and every output value is `assemble` of one piece per part in part
+   (= channel) order where the piece of part i is that part's value at this timestamp when it has one and INVALID
+   (None) exactly when it has none (piece_ok). *)
+Theorem C14_stitch_sorted_union : forall ps out,
   Forall (fun p => StronglySorted Qlt (map fst p)) ps -> stitch ps = Some out ->
   StronglySorted Qlt (map fst out) /\
-  (forall s, In s out -> exists p s', In p ps /\ In s' p /\ fst s' = fst s).
-Proof. exact stitch_sorted_sound. Qed.
-Print Assumptions C14_stitch_sorted_union_partial.
+  (forall s, In s out -> exists p s', In p ps /\ In s' p /\ fst s' = fst s) /\
+  (forall i s', In s' (nth i ps []) -> exists s, In s out /\ fst s == fst s') /\
+  (forall s, In s out -> exists pcs, snd s = assemble pcs /\ List.length pcs = List.length ps /\
+                                     forall i, piece_ok (nth i ps []) (fst s) (nth i pcs None)).
+Proof. exact stitch_sorted_union. Qed.
+Print Assumptions C14_stitch_sorted_union.
+
+(* KeyError (no product at all) exactly when no part has any sample *)
+Theorem C14_stitch_none_iff : forall ps, Forall (fun p => StronglySorted Qlt (map fst p)) ps ->
+  (stitch ps = None <-> forall p, In p ps -> p = []).
+Proof. exact stitch_none_iff. Qed.
+Print Assumptions C14_stitch_none_iff.
 
 Theorem C14_stitch_parts_in_channel_order : forall pcs,
   assemble pcs = flat_map (fun pc => match pc with Some v => v | None => map (fun _ => None) (last_present pcs []) end) pcs
